@@ -121,165 +121,172 @@ Definition fresh (marks : list N) : ev := {| e_buf := AppendBeginMarker []; e_st
 Section Exec.
   Variable st : settings.
 
-  (* Event.Interface / Array.Interface etc. of a nil-valued thing *)
   Definition key_prim (e : ev) (key : bytes) (p : prim) : ev := set_buf e (append_prim st (AppendKey (e_buf e) key) p).
 
-  (* array buffer ops work on plain bytes plus the mark trace *)
-  Fixpoint exec (o : op) (e : ev) {struct o} : ev :=
-    let exec_list := fix exec_list (l : list op) (e : ev) {struct l} : ev :=
-      match l with [] => e | o :: t => exec_list t (exec o e) end in
-    (* run a marshaler's fragment on a fresh helper event and return (its buffer, marks) *)
-    let sub_object (fs : list op) (marks : list N) : bytes * list N :=
-      (* appendObject on e.buf[:0]: "{" fields "}" *)
-      let e' := exec_list fs {| e_buf := AppendBeginMarker []; e_stack := false; e_discarded := false; e_marks := marks |} in
-      (AppendEndMarker (e_buf e'), e_marks e') in
-    let arr_list := fix arr_list (l : list op) (a : bytes * list N) {struct l} : bytes * list N :=
-      match l with
-      | [] => a
-      | o :: t =>
-          let '(buf, marks) := a in
-          let a' :=
-            match o with
-            | AElem p => (append_prim st (AppendArrayDelim buf) p, marks)
-            | AObj fs => let '(b, m) := sub_object fs marks in (AppendArrayDelim buf ++ b, m)
-            | ADict fs => let '(b, m) := sub_object fs marks in (AppendArrayDelim buf ++ b, m)
-            | AErr ev_ =>
-                match ev_ with
-                | EObj fs => let '(b, m) := sub_object fs marks in (AppendArrayDelim buf ++ b, m)
-                | ETypedNil => (AppendNil (AppendArrayDelim buf), marks)
-                | EText s => (AppendString (AppendArrayDelim buf) s, marks)
-                | ENil => (AppendInterface (AppendArrayDelim buf) (s_nil_iface st), marks)
-                | EIface r => (AppendInterface (AppendArrayDelim buf) r, marks)
-                end
-            | _ => a
-            end in
-          arr_list t a'
-      end in
+  (* The helpers below are parametric in [ex], the executor of one op on an
+     event; [exec] ties the knot.  This keeps every helper a plain list
+     recursion that can be reasoned about on its own. *)
+  Section WithEx.
+    Variable ex : op -> ev -> ev.
+
+    Fixpoint run_list (l : list op) (e : ev) : ev :=
+      match l with [] => e | o :: t => run_list t (ex o e) end.
+
+    (* a marshaler's fragment run on a fresh helper event (Dict(), newEvent(nil,0)
+       with buf[:0] + appendObject, ...): its bytes "{" fields "}" and the marks *)
+    Definition sub_object (fs : list op) (marks : list N) : bytes * list N :=
+      let e' := run_list fs (fresh marks) in (AppendEndMarker (e_buf e'), e_marks e').
+
+    (* the value an error turns into when it is written as an element/value at [dst] *)
+    Definition errv_value (dst : bytes) (marks : list N) (x : errv (list op)) : bytes * list N :=
+      match x with
+      | EObj fs => let '(b, m) := sub_object fs marks in (dst ++ b, m)
+      | ETypedNil => (AppendNil dst, marks)
+      | EText s => (AppendString dst s, marks)
+      | ENil => (AppendInterface dst (s_nil_iface st), marks)
+      | EIface r => (AppendInterface dst r, marks)
+      end.
+
+    (* one Array method on the array buffer *)
+    Definition arr_op (o : op) (a : bytes * list N) : bytes * list N :=
+      let '(buf, marks) := a in
+      match o with
+      | AElem p => (append_prim st (AppendArrayDelim buf) p, marks)
+      | AObj fs | ADict fs => let '(b, m) := sub_object fs marks in (AppendArrayDelim buf ++ b, m)
+      | AErr x => errv_value (AppendArrayDelim buf) marks x
+      | _ => a
+      end.
+    Definition arr_list (l : list op) (a : bytes * list N) : bytes * list N := fold_left (fun a o => arr_op o a) l a.
+
     (* Array.write: "[" buf "]" *)
-    let array_bytes (es : list op) (marks : list N) : bytes * list N :=
-      let '(b, m) := arr_list es ([], marks) in (AppendArrayEnd (AppendArrayStart [] ++ b), m) in
+    Definition array_bytes (es : list op) (marks : list N) : bytes * list N :=
+      let '(b, m) := arr_list es ([], marks) in (AppendArrayEnd (AppendArrayStart [] ++ b), m).
+
+    (* Errs: arr := Arr(); per error Object / Err / Str / Interface *)
+    Definition errs_bytes (es : list (errv (list op))) (marks : list N) : bytes * list N :=
+      let '(b, m) := fold_left (fun a x => errv_value (AppendArrayDelim (fst a)) (snd a) x) es ([], marks) in
+      (AppendArrayEnd (AppendArrayStart [] ++ b), m).
+
+    (* the []error case of Fields: "[" e1 "," e2 ... "]" appended to dst *)
+    Fixpoint fields_errs (l : list (errv (list op))) (first : bool) (d : bytes) (m : list N) : bytes * list N :=
+      match l with
+      | [] => (d, m)
+      | x :: t =>
+          let '(d1, m1) := errv_value (if first then d else AppendArrayDelim d) m x in
+          fields_errs t false d1 m1
+      end.
+
+    Definition field_value (stack : bool) (dst : bytes) (marks : list N) (v : fieldval (list op)) : bytes * list N :=
+      match v with
+      | FVPrim p => (append_prim st dst p, marks)
+      | FVObj fs => let '(b, m) := sub_object fs marks in (dst ++ b, m)
+      | FVErr x stk =>
+          let '(d1, m1) := errv_value dst marks x in
+          if stack && s_stack_marshaler st then
+            match stk with
+            | ENil | ETypedNil | EObj _ => (d1, m1)   (* EObj: not produced for Fields (its switch has no marshaler case) *)
+            | EText s => (AppendString (AppendKey d1 (s_stack_name st)) s, m1)
+            | EIface r => (AppendInterface (AppendKey d1 (s_stack_name st)) r, m1)
+            end
+          else (d1, m1)
+      | FVErrs es => let '(d1, m1) := fields_errs es true (AppendArrayStart dst) marks in (AppendArrayEnd d1, m1)
+      end.
+
+    Fixpoint fields (stack : bool) (l : list (option bytes * fieldval (list op))) (buf : bytes) (marks : list N) : bytes * list N :=
+      match l with
+      | [] => (buf, marks)
+      | (None, _) :: t => fields stack t buf marks
+      | (Some key, v) :: t =>
+          let '(dst', marks') := field_value stack (AppendKey buf key) marks v in
+          fields stack t dst' marks'
+      end.
+
+    (* Object(key, obj) / appendObject on the event itself: the marshaler sees the same event *)
+    Definition object_on (e : ev) (key : bytes) (fs : list op) : ev :=
+      let e' := run_list fs (set_buf e (AppendBeginMarker (AppendKey (e_buf e) key))) in
+      set_buf e' (AppendEndMarker (e_buf e')).
+
     (* AnErr's switch *)
-    let an_err (e : ev) (key : bytes) (x : errv (list op)) : ev :=
+    Definition an_err (e : ev) (key : bytes) (x : errv (list op)) : ev :=
       match x with
       | ENil | ETypedNil => e
-      | EObj fs =>
-          let b0 := AppendBeginMarker (AppendKey (e_buf e) key) in
-          let e' := exec_list fs (set_buf e b0) in
-          set_buf e' (AppendEndMarker (e_buf e'))
+      | EObj fs => object_on e key fs
       | EText s => key_prim e key (PStr s)
       | EIface r => key_prim e key (PIface r)
-      end in
-    match o with
-    | OKey key p => key_prim e key p
-    | ODict key fs =>
-        let '(b, m) := sub_object fs (e_marks e) in
-        {| e_buf := AppendKey (e_buf e) key ++ b; e_stack := e_stack e; e_discarded := e_discarded e; e_marks := m |}
-    | OArray key es =>
-        let '(b, m) := array_bytes es (e_marks e) in
-        {| e_buf := AppendKey (e_buf e) key ++ b; e_stack := e_stack e; e_discarded := e_discarded e; e_marks := m |}
-    | OObject key None => set_buf e (AppendNil (AppendKey (e_buf e) key))
-    | OObject key (Some fs) =>
-        (* appendObject on the event itself: the marshaler sees the same event *)
-        let e' := exec_list fs (set_buf e (AppendBeginMarker (AppendKey (e_buf e) key))) in
-        set_buf e' (AppendEndMarker (e_buf e'))
-    | OEmbed None => e
-    | OEmbed (Some fs) => exec_list fs e
-    | OFields kvs =>
-        let fields := fix fields (l : list (option bytes * fieldval (list op))) (buf : bytes) (marks : list N) {struct l} : bytes * list N :=
-          match l with
-          | [] => (buf, marks)
-          | (None, _) :: t => fields t buf marks
-          | (Some key, v) :: t =>
-              let dst := AppendKey buf key in
-              let '(dst', marks') :=
-                match v with
-                | FVPrim p => (append_prim st dst p, marks)
-                | FVObj fs => let '(b, m) := sub_object fs marks in (dst ++ b, m)
-                | FVErr x stk =>
-                    let '(d1, m1) :=
-                      match x with
-                      | EObj fs => let '(b, m) := sub_object fs marks in (dst ++ b, m)
-                      | ETypedNil => (AppendNil dst, marks)
-                      | EText s => (AppendString dst s, marks)
-                      | ENil => (AppendInterface dst (s_nil_iface st), marks)
-                      | EIface r => (AppendInterface dst r, marks)
-                      end in
-                    if e_stack e && s_stack_marshaler st then
-                      match stk with
-                      | ENil | ETypedNil => (d1, m1)
-                      | EText s => (AppendString (AppendKey d1 (s_stack_name st)) s, m1)
-                      | EObj _ => (d1, m1)   (* not produced by the harness for Fields: the switch has no marshaler case *)
-                      | EIface r => (AppendInterface (AppendKey d1 (s_stack_name st)) r, m1)
-                      end
-                    else (d1, m1)
-                | FVErrs es =>
-                    let errs := fix errs (l : list (errv (list op))) (first : bool) (d : bytes) (m : list N) {struct l} : bytes * list N :=
-                      match l with
-                      | [] => (d, m)
-                      | x :: t =>
-                          let d0 := if first then d else AppendArrayDelim d in
-                          let '(d1, m1) :=
-                            match x with
-                            | EObj fs => let '(b, m') := sub_object fs m in (d0 ++ b, m')
-                            | ETypedNil => (AppendNil d0, m)
-                            | EText s => (AppendString d0 s, m)
-                            | ENil => (AppendInterface d0 (s_nil_iface st), m)
-                            | EIface r => (AppendInterface d0 r, m)
-                            end in
-                          errs t false d1 m1
-                      end in
-                    let '(d1, m1) := errs es true (AppendArrayStart dst) marks in (AppendArrayEnd d1, m1)
-                end in
-              fields t dst' marks'
-          end in
-        let '(b, m) := fields kvs (e_buf e) (e_marks e) in
-        {| e_buf := b; e_stack := e_stack e; e_discarded := e_discarded e; e_marks := m |}
-    | OAnErr key x => an_err e key x
-    | OErr x stk =>
-        let e1 :=
-          if e_stack e && s_stack_marshaler st then
-            match stk with
-            | ENil | ETypedNil => e
-            | EObj fs =>
-                let e' := exec_list fs (set_buf e (AppendBeginMarker (AppendKey (e_buf e) (s_stack_name st)))) in
-                set_buf e' (AppendEndMarker (e_buf e'))
-            | EText s => key_prim e (s_stack_name st) (PStr s)
-            | EIface r => key_prim e (s_stack_name st) (PIface r)
-            end
-          else e in
-        an_err e1 (s_error_name st) x
-    | OErrs key es =>
-        (* arr := Arr(); per error: Object / Err / Str / Interface; then Array(key, arr) *)
-        let errs := fix errs (l : list (errv (list op))) (a : bytes * list N) {struct l} : bytes * list N :=
-          match l with
-          | [] => a
-          | x :: t =>
-              let '(buf, marks) := a in
-              let a' :=
-                match x with
-                | EObj fs => let '(b, m) := sub_object fs marks in (AppendArrayDelim buf ++ b, m)
-                | ETypedNil => (AppendNil (AppendArrayDelim buf), marks)
-                | EText s => (AppendString (AppendArrayDelim buf) s, marks)
-                | ENil => (AppendInterface (AppendArrayDelim buf) (s_nil_iface st), marks)
-                | EIface r => (AppendInterface (AppendArrayDelim buf) r, marks)
-                end in
-              errs t a'
-          end in
-        let '(b, m) := errs es ([], e_marks e) in
-        {| e_buf := AppendKey (e_buf e) key ++ AppendArrayEnd (AppendArrayStart [] ++ b);
-           e_stack := e_stack e; e_discarded := e_discarded e; e_marks := m |}
-    | OStack => {| e_buf := e_buf e; e_stack := true; e_discarded := e_discarded e; e_marks := e_marks e |}
-    | OFunc fs => if e_discarded e then e else exec_list fs e
-    | OTimestamp t => key_prim e (s_timestamp_name st) (PTime t)
-    | OCaller None => e
-    | OCaller (Some txt) => key_prim e (s_caller_name st) (PStr txt)
-    | OMark id => {| e_buf := e_buf e; e_stack := e_stack e; e_discarded := e_discarded e; e_marks := e_marks e ++ [id] |}
-    | ODiscard => {| e_buf := e_buf e; e_stack := e_stack e; e_discarded := true; e_marks := e_marks e |}
-    | AElem _ | AObj _ | ADict _ | AErr _ => e
+      end.
+
+    Definition with_buf_marks (e : ev) (bm : bytes * list N) : ev :=
+      {| e_buf := fst bm; e_stack := e_stack e; e_discarded := e_discarded e; e_marks := snd bm |}.
+
+    Definition exec_body (o : op) (e : ev) : ev :=
+      match o with
+      | OKey key p => key_prim e key p
+      | ODict key fs =>
+          let '(b, m) := sub_object fs (e_marks e) in with_buf_marks e (AppendKey (e_buf e) key ++ b, m)
+      | OArray key es =>
+          let '(b, m) := array_bytes es (e_marks e) in with_buf_marks e (AppendKey (e_buf e) key ++ b, m)
+      | OObject key None => set_buf e (AppendNil (AppendKey (e_buf e) key))
+      | OObject key (Some fs) => object_on e key fs
+      | OEmbed None => e
+      | OEmbed (Some fs) => run_list fs e
+      | OFields kvs => with_buf_marks e (fields (e_stack e) kvs (e_buf e) (e_marks e))
+      | OAnErr key x => an_err e key x
+      | OErr x stk =>
+          let e1 :=
+            if e_stack e && s_stack_marshaler st then
+              match stk with
+              | ENil | ETypedNil => e
+              | EObj fs => object_on e (s_stack_name st) fs
+              | EText s => key_prim e (s_stack_name st) (PStr s)
+              | EIface r => key_prim e (s_stack_name st) (PIface r)
+              end
+            else e in
+          an_err e1 (s_error_name st) x
+      | OErrs key es =>
+          let '(b, m) := errs_bytes es (e_marks e) in with_buf_marks e (AppendKey (e_buf e) key ++ b, m)
+      | OStack => {| e_buf := e_buf e; e_stack := true; e_discarded := e_discarded e; e_marks := e_marks e |}
+      | OFunc fs => if e_discarded e then e else run_list fs e
+      | OTimestamp t => key_prim e (s_timestamp_name st) (PTime t)
+      | OCaller None => e
+      | OCaller (Some txt) => key_prim e (s_caller_name st) (PStr txt)
+      | OMark id => {| e_buf := e_buf e; e_stack := e_stack e; e_discarded := e_discarded e; e_marks := e_marks e ++ [id] |}
+      | ODiscard => {| e_buf := e_buf e; e_stack := e_stack e; e_discarded := true; e_marks := e_marks e |}
+      | AElem _ | AObj _ | ADict _ | AErr _ => e
+      end.
+  End WithEx.
+
+  (* executing with fuel: [exec_n n] handles programs of nesting depth < n; an
+     exhausted fuel leaves the event untouched (never reached when n > depth,
+     see [exec_fuel_enough] in Proofs/ExecP.v) *)
+  Fixpoint exec_n (n : nat) (o : op) (e : ev) : ev :=
+    match n with
+    | O => e
+    | S n' => exec_body (exec_n n') o e
     end.
 
-  Definition exec_list := fix exec_list (l : list op) (e : ev) {struct l} : ev :=
-    match l with [] => e | o :: t => exec_list t (exec o e) end.
+  (* nesting depth *)
+  Fixpoint depth (o : op) : nat :=
+    let dl := fix dl (l : list op) : nat := match l with [] => O | x :: t => Nat.max (depth x) (dl t) end in
+    let de (x : errv (list op)) : nat := match x with EObj fs => dl fs | _ => O end in
+    let del := fix del (l : list (errv (list op))) : nat := match l with [] => O | x :: t => Nat.max (de x) (del t) end in
+    S (match o with
+       | ODict _ fs | OArray _ fs | OObject _ (Some fs) | OEmbed (Some fs) | OFunc fs | AObj fs | ADict fs => dl fs
+       | OFields kvs =>
+           (fix dk (l : list (option bytes * fieldval (list op))) : nat :=
+              match l with
+              | [] => O
+              | (_, v) :: t =>
+                  Nat.max (match v with FVPrim _ => O | FVObj fs => dl fs | FVErr x s => Nat.max (de x) (de s) | FVErrs es => del es end) (dk t)
+              end) kvs
+       | OAnErr _ x | AErr x => de x
+       | OErr x s => Nat.max (de x) (de s)
+       | OErrs _ es => del es
+       | _ => O
+       end).
+  Definition depth_list (l : list op) : nat := fold_right (fun o d => Nat.max (depth o) d) O l.
+
+  Definition exec (o : op) (e : ev) : ev := exec_n (depth o) o e.
+  Definition exec_list (l : list op) (e : ev) : ev := run_list (exec_n (depth_list l)) l e.
 
   (* ---------------- loggers and whole events ---------------- *)
   (* a hook is a fragment run on the event (Timestamp()/Caller() on Context are such hooks) *)
